@@ -35,7 +35,7 @@ fn skeleton(section: &[u8]) -> String {
 }
 
 /// Walks `it` (an iterator over `section`) and judges every step.
-pub fn judge_iter(mut it: v2::TypeLengthValues<'_>, section: &[u8], via: &str, case: &str, rec: &mut Recorder) {
+pub fn judge_iter(mut it: v2::TypeLengthValues<'_>, section: &[u8], via: &str, case: &dyn Fn() -> String, rec: &mut Recorder) {
     let (want, end) = tlv_ref(section);
     let base = section.as_ptr() as usize;
     let bound = section.len() / 3 + 1;
@@ -167,7 +167,7 @@ pub fn judge_iter(mut it: v2::TypeLengthValues<'_>, section: &[u8], via: &str, c
         || show(section, 60),
     );
     for (rule, detail) in problems {
-        rec.violation(&format!("{}:{}", rule, via), case.to_string(), skeleton(section), format!("{} via {} on section {:?}: {}", rule, via, show(section, 80), detail));
+        rec.violation(&format!("{}:{}", rule, via), case(), skeleton(section), format!("{} via {} on section {:?}: {}", rule, via, show(section, 80), detail));
     }
 }
 
@@ -190,7 +190,7 @@ pub fn judge_section(section: &[u8], rec: &mut Recorder) {
     if want.iter().any(|w| w.len > 255) {
         rec.class("oracle:value-length>255", || show(section, 30));
     }
-    let case = enc_case("tlv", &section[..section.len().min(70_100)]);
+    let case = || enc_case("tlv", &section[..section.len().min(70_100)]);
     judge_iter(v2::TypeLengthValues::from(section), section, "from-slice", &case, rec);
 }
 
@@ -203,14 +203,14 @@ pub fn judge_header(input: &[u8], rec: &mut Recorder) {
     let section: &[u8] = if fam == 0 { &[] } else { &input[16 + size..16 + len] };
     rec.case(hash_bytes(input), section.len() >= 3);
     rec.class("oracle:section-of-accepted-header", || show(input, 40));
-    let case = enc_case("v2", &input[..input.len().min(70_100)]);
+    let case = || enc_case("v2", &input[..input.len().min(70_100)]);
     match guard(|| v2::Header::try_from(input)) {
         Ok(Ok(h)) => {
             // locate the section inside the header's own buffer for the tiling check
             let hb = h.as_bytes();
             let sec_in_h: &[u8] = if fam == 0 { &hb[hb.len()..] } else { &hb[16 + size..16 + len] };
             if h.tlv_bytes() != section {
-                rec.violation("section-bytes:header", case.clone(), "header".into(), format!("tlv_bytes() differs from the bytes after the address block on {}", show(input, 60)));
+                rec.violation("section-bytes:header", case(), "header".into(), format!("tlv_bytes() differs from the bytes after the address block on {}", show(input, 60)));
             }
             judge_iter(h.tlvs(), sec_in_h, "header.tlvs()", &case, rec);
             let o = h.to_owned();
